@@ -38,6 +38,11 @@ def gen_cases(tier, seed):
             hasblk |= kind == "blk"
             spec.append(e)
             nodes.append(e)
+        if not sole and r.random() < 0.06:
+            spec += [{"p": "blkdev-outside", "k": "blk", "rdev": [7, 99]}, {"p": "src/sub/link-to-blk", "k": "l", "target": "../../blkdev-outside"}]
+            viaL = True
+        else:
+            viaL = False
         prior = r.choice(["fresh", "fresh", "file", "node", "link-live", "link-dangling"])
         noclobber = prior != "fresh" and r.random() < 0.25
         pre = []
@@ -56,7 +61,8 @@ def gen_cases(tier, seed):
         elif prior == "link-dangling":
             pre.append({"p": dstp, "k": "l", "target": "nowhere-at-all"})
         args = ["--driver", driver, "-w", str(r.choice([1, 2, 4]))] + (["-n"] if noclobber else [])
-        args += r.choice([[], [], [], ["-L"], ["--gitignore"], ["--fsync"], ["--no-perms"], ["--no-timestamps", "--ownership"], ["--reflink", "never"], ["--no-progress"]])
+        args += ["-L"] if viaL else r.choice([[], [], [], ["-L"], ["--gitignore"], ["--fsync"], ["--no-perms"], ["--no-timestamps", "--ownership"], ["--reflink", "never"], ["--no-progress"]])
+        hasblk |= viaL
         args += [nodes[0]["p"], "dst"] if sole else ["-r", "src", "dst"]
         yield {"spec": spec, "pre": pre, "args": args, "driver": driver, "sole": sole, "prior": prior, "noclobber": noclobber, "hasblk": hasblk,
                "umask": r.choice([0, 0o022, 0o077, 0o027]), "fs": "tmpfs" if r.random() < 0.3 else "ext4", "dstp": dstp}
